@@ -10,7 +10,7 @@
    Float premises addsub_float_exact / mul_float_exact (below 2^31 s) and C09's float_split_exact_on_D9 are NOT proved: explicit arguments of *_partial. *)
 From Coq Require Import ZArith List Bool.
 From Coq Require Import Floats.SpecFloat.
-From PV Require Import Lib.PyBase Spec.TdFloat Gen.Constants Model.Duration Gen.DurationOps Model.DurationOps Proofs.C09Facts Proofs.C10Facts Proofs.C10History.
+From PV Require Import Lib.PyBase Spec.TdFloat Gen.Constants Model.Duration Gen.DurationOps Model.DurationOps Proofs.C09Facts Proofs.C10Facts Proofs.C10History Proofs.FloatRoundTripC09.
 Import ListNotations.
 Open Scope Z_scope.
 
@@ -371,3 +371,24 @@ Theorem divisor_memo_by_timedelta_eq_refuted : exists d,
   /\ memo_divisors [] [VTd (366 * DAYUS); VDur d] = [Some (366 * DAYUS); Some (366 * DAYUS)].
 Proof. exact memo_by_timedelta_eq_refuted. Qed.
 Print Assumptions divisor_memo_by_timedelta_eq_refuted.
+
+
+(* ---- C09's float premise float_split_exact_on_D9 is a THEOREM (Proofs/FloatRoundTripC09.v, through Flocq's binary64 correctness): the statements above that carry it
+   hold unconditionally.  Print Assumptions lists the standard-library real-number axioms these rest on; the *_partial forms above depend on nothing. *)
+Theorem to_microseconds_constructed :
+  forall d s us ms mi h w y mo r,
+  duration_new d s us ms mi h w y mo = Ok r -> D9 (d_N r) (YM y mo * 86400) -> exact_ym r.
+Proof. exact (C10Facts.to_microseconds_constructed float_split_exact_on_D9_proved). Qed.
+Print Assumptions to_microseconds_constructed.
+
+Theorem remainder_constructible : forall u, Z.abs u < B33 -> exists r0, dur_of_us u = Ok r0.
+Proof. exact (C10Facts.remainder_constructible float_split_exact_on_D9_proved). Qed.
+Print Assumptions remainder_constructible.
+
+Theorem chain_mod_then_div :
+  forall d n k m, (m = 5 \/ m = 6) -> exact0 d -> n <> 0 -> Z.abs n < B33 ->
+  exists r, run_history [HBin 7 (OLit (Ok (VDur d))) (OLit (Ok (VTd n))); HBin m (ORef 0) (OLit (Ok (VTd k)))]
+            = [Ok (RDur r); td_binop m (d_N d mod n) k]
+            /\ d_N r = d_N d mod n /\ exact0 r.
+Proof. exact (C10History.chain_mod_then_div float_split_exact_on_D9_proved). Qed.
+Print Assumptions chain_mod_then_div.
